@@ -791,7 +791,7 @@ def least_square_fit(x, bases, u):
     surf_shape = [b.num_functions() for b in bases]
     dim = x.shape[-1]
     if len(x.shape) == 2:
-        x = x.reshape(surf_shape + [dim])
+        x = x.reshape([len(t) for t in u] + [dim])
     N_all = [b(t) for b,t in zip(bases, u)]
     N_all.reverse()
     cp = x
